@@ -802,3 +802,121 @@ Proof.
   destruct (mulden_sound e d _ _ ML) as [_ [_ ZL]]. destruct (mulden_sound e d _ _ MR) as [_ [_ ZR]].
   unfold holds. apply andb_false_iff in F. destruct F as [F|F]; [pose proof (ZL F Z) | pose proof (ZR F Z)]; tauto.
 Qed.
+
+(* ------------------------------------------------------------------ lines in which every variable cancels *)
+Lemma tsum_split e ts v : tsum e ts == tcoeff ts v * e v + tsum e (filter (fun p => negb (Nat.eqb (fst p) v)) ts).
+Proof.
+  induction ts as [|[w c] t IH]; cbn [tsum tcoeff filter fst].
+  - ring.
+  - destruct (Nat.eqb w v) eqn:W; cbn [negb].
+    + apply Nat.eqb_eq in W; subst. lra.
+    + cbn [tsum]. lra.
+Qed.
+
+Lemma tcoeff_filter ts v w :
+  tcoeff (filter (fun p => negb (Nat.eqb (fst p) v)) ts) w == if Nat.eqb w v then 0 else tcoeff ts w.
+Proof.
+  induction ts as [|[u c] t IH]; cbn [filter tcoeff fst].
+  - destruct (Nat.eqb w v); reflexivity.
+  - destruct (Nat.eqb u v) eqn:UV; cbn [negb].
+    + apply Nat.eqb_eq in UV. subst u. rewrite IH. destruct (Nat.eqb w v) eqn:WV; [reflexivity|].
+      assert (VW : Nat.eqb v w = false) by (rewrite Nat.eqb_sym; exact WV). rewrite VW. reflexivity.
+    + cbn [tcoeff]. destruct (Nat.eqb u w) eqn:UW.
+      * apply Nat.eqb_eq in UW. subst w. rewrite IH. rewrite UV. reflexivity.
+      * exact IH.
+Qed.
+
+Lemma filter_length_le {A} (f : A -> bool) l : (length (filter f l) <= length l)%nat.
+Proof. induction l; cbn; [lia | destruct (f a); cbn; lia]. Qed.
+
+Lemma tsum_zero e : forall n ts, (length ts <= n)%nat -> (forall v, tcoeff ts v == 0) -> tsum e ts == 0.
+Proof.
+  induction n as [|n IH]; intros ts L Z.
+  - destruct ts; [reflexivity | cbn in L; lia].
+  - destruct ts as [|[v c] t]; [reflexivity|].
+    rewrite (tsum_split e ((v, c) :: t) v), (Z v).
+    assert (R : tsum e (filter (fun p => negb (Nat.eqb (fst p) v)) ((v, c) :: t)) == 0).
+    { apply IH.
+      - cbn [filter fst]. rewrite Nat.eqb_refl. cbn [negb]. pose proof (filter_length_le (fun p : nat * Q => negb (Nat.eqb (fst p) v)) t).
+        cbn in L. lia.
+      - intro w. rewrite tcoeff_filter. destruct (Nat.eqb w v); [reflexivity | apply Z]. }
+    rewrite R. ring.
+Qed.
+
+Lemma tcoeff_above ts m : (max_var_terms ts <= m)%nat -> tcoeff ts m = 0.
+Proof.
+  induction ts as [|[v c] t IH]; cbn [max_var_terms tcoeff]; intro H; [reflexivity|].
+  destruct (Nat.eqb v m) eqn:E; [apply Nat.eqb_eq in E; lia | apply IH; lia].
+Qed.
+
+Lemma lin_eqb_upto_coeff : forall n a b, lin_eqb_upto n a b = true ->
+  snd a == snd b /\ forall m, (m < n)%nat -> coeff a m == coeff b m.
+Proof.
+  induction n as [|n IH]; cbn [lin_eqb_upto]; intros a b H.
+  - apply Qeqb_true in H. split; [exact H | intros m L; lia].
+  - apply andb_true_iff in H. destruct H as [H1 H2]. apply Qeqb_true in H1. destruct (IH a b H2) as [S C].
+    split; [exact S|]. intros m L. destruct (Nat.eq_dec m n) as [->|NE]; [exact H1 | apply C; lia].
+Qed.
+
+Lemma all_cancel e ts : lin_eqb (ts, 0) (lconst 0) = true -> tsum e ts == 0.
+Proof.
+  unfold lin_eqb. intro H. apply lin_eqb_upto_coeff in H. destruct H as [_ C].
+  apply (tsum_zero e (length ts)); [lia|]. intro v.
+  unfold nvars in C. cbn [fst lconst max_var_terms] in C. rewrite Nat.max_0_r in C.
+  destruct (Nat.lt_ge_cases v (max_var_terms ts)) as [L|G].
+  - specialize (C v L). unfold coeff in C. cbn [fst lconst tcoeff] in C. exact C.
+  - rewrite (tcoeff_above ts v G). reflexivity.
+Qed.
+
+Theorem degenerate_sound r b : degenerate r = Some b -> forall e, holds e r <-> b = true.
+Proof.
+  unfold degenerate. destruct (linearize (lhs r)) as [l1|] eqn:L1; [|discriminate].
+  destruct (linearize (rhs r)) as [l2|] eqn:L2; [|discriminate].
+  destruct (lin_eqb (fst (lsub l1 l2), 0) (lconst 0)) eqn:Z; [|discriminate]. intros H e. injection H as <-.
+  destruct (linearize_sound e _ _ L1) as [D1 E1]. destruct (linearize_sound e _ _ L2) as [D2 E2].
+  pose proof (all_cancel e _ Z) as T. pose proof (leval_lsub e l1 l2) as S. unfold leval at 1 in S. rewrite T in S.
+  rewrite cmp_holdsb_spec. unfold holds.
+  rewrite (cmp_holds_compat (rcmp r) _ _ _ _ E1 E2).
+  set (A := leval e l1) in *. set (B := leval e l2) in *. set (k := snd (lsub l1 l2)) in *.
+  assert (K : k == A - B) by lra.
+  assert (K2 : snd l1 + - (1) * snd l2 == A - B) by (rewrite <- K; subst k; reflexivity). clearbody A B k.
+  split.
+  - intros [_ [_ H]]. destruct (rcmp r); cbn [cmp_holds]; cbn [cmp_holds] in H; first [lra | (intro E; apply H; lra)].
+  - intro H. split; [exact D1|]. split; [exact D2|]. destruct (rcmp r); cbn [cmp_holds]; cbn [cmp_holds] in H; first [lra | (intro E; apply H; lra)].
+Qed.
+
+(* what simplify does to the user's lines before isolating variables preserves the solution set when no two lines oppose
+   each other and no dropped line is false ... *)
+Theorem simplify_pre_partial lines :
+  no_opposing lines = true -> drops_only_true lines = true ->
+  forall e, holds_sys e (simplify_pre lines) <-> holds_sys e lines.
+Proof.
+  intros N DT e. unfold simplify_pre. rewrite N.
+  unfold drops_only_true in DT. rewrite forallb_forall in DT.
+  induction lines as [|r t IH]; cbn [filter holds_sys]; [tauto|].
+  assert (IHt : holds_sys e (filter (fun r0 => negb (dropped r0)) t) <-> holds_sys e t).
+  { clear IH N.
+    induction t as [|s t' IH']; cbn [filter holds_sys]; [tauto|].
+    assert (DT' : forall x, In x (r :: t') -> (if dropped x then match degenerate x with Some b => b | None => true end else true) = true).
+    { intros x [<-|Hx]; apply DT; [left; auto | right; right; auto]. }
+    assert (Hs := DT s (or_intror (or_introl eq_refl))).
+    destruct (dropped s) eqn:Ds; cbn [negb holds_sys].
+    - unfold dropped in Ds. destruct (degenerate s) as [b|] eqn:Dg; [|discriminate]. subst b.
+      rewrite (degenerate_sound s true Dg e).
+      rewrite (IH' (fun x Hx => DT x (match Hx with or_introl a => or_introl a | or_intror a => or_intror (or_intror a) end))). tauto.
+    - rewrite (IH' (fun x Hx => DT x (match Hx with or_introl a => or_introl a | or_intror a => or_intror (or_intror a) end))). tauto. }
+  assert (Hr := DT r (or_introl eq_refl)).
+  destruct (dropped r) eqn:Dr; cbn [negb holds_sys].
+  - unfold dropped in Dr. destruct (degenerate r) as [b|] eqn:Dg; [|discriminate]. subst b.
+    rewrite (degenerate_sound r true Dg e), IHt. tauto.
+  - rewrite IHt. tauto.
+Qed.
+
+(* ... and does not otherwise:  'x0 = x0 + 1'  becomes the empty (always true) system *)
+Theorem simplify_pre_refuted :
+  exists lines e, no_opposing lines = true /\ holds_sys e (simplify_pre lines) /\ ~ holds_sys e lines.
+Proof.
+  exists [Rel (Var 0) Eq (Add (Var 0) (Cst 1))], (env_of [0]). split; [reflexivity|]. split.
+  - apply holds_sysb_spec. vm_compute. reflexivity.
+  - intro H. apply holds_sysb_spec in H. vm_compute in H. discriminate.
+Qed.
